@@ -63,6 +63,15 @@ class BUnit:
                     ns["Mat%d%d%s" % (n, m, suf)] = mat_ctor(n, m)
                 ns["Mat_%d_%d" % (n, m)] = ns["Mat_%d_%d_P" % (n, m)] = mat_ctor(n, m)
         ns["ITE"] = S.ITE
+        def AND(*a):
+            if all(isinstance(x, bool) for x in a):
+                return all(a)
+            return z3.And(*[z3.BoolVal(x) if isinstance(x, bool) else x for x in a])
+        def OR(*a):
+            if all(isinstance(x, bool) for x in a):
+                return any(a)
+            return z3.Or(*[z3.BoolVal(x) if isinstance(x, bool) else x for x in a])
+        ns["AND"], ns["OR"] = AND, OR
         self.branch_script = []
         self.branch_pos = 0
         self.path = []
@@ -107,6 +116,39 @@ class BUnit:
         self.ctx.add_function(path, display or (cxxname or base) + "/%d" % arity, c.start, c.end, c.text,
                               "M3 (transliteration to symbolic Python; rules logged)", dropped, log)
         return self.ns[full]
+
+    def add_method(self, cls, path, anchor, name, members=(), methods=(), occurrence=1, extra_pre=None, cxxname=None):
+        """transliterate a member function and attach it to python class `cls` (overloads by arity).
+        implicit-this rule: listed data members -> self.X, listed sibling methods f( -> self.f("""
+        def pre(body):
+            for m in members:
+                body = re.sub(r"(?<![\w.>])" + re.escape(m) + r"\b", "self." + m, body)
+            for f in methods:
+                body = re.sub(r"(?<![\w.>:])" + re.escape(f) + r"\s*\(", "self." + f + "(", body)
+            if extra_pre:
+                body = extra_pre(body)
+            return body
+        c = cut_function(path, anchor, name, occurrence=occurrence)
+        names = params_of(strip_comments(c.header))
+        arity = len(names) + 1
+        full = "%s__%s__%d" % (cls.__name__, name, arity)
+        src, log, dropped = to_python(c, full, self_param=True, pre=pre)
+        log = log + [dict(rule="implicit-this (members: %s; methods: %s)" % (",".join(members), ",".join(methods)), hits=1, examples=[])]
+        self.sources[full] = src
+        try:
+            exec(compile(src, "<translit:%s>" % full, "exec"), self.ns)
+        except SyntaxError as e:
+            raise ExtractionError("transliteration of %s is not valid Python: %s\n%s" % (full, e, src))
+        key = (cls.__name__, name)
+        ov = self.overloads.setdefault(key, {})
+        ov[arity] = self.ns[full]
+        def dispatch(self_, *a, _ov=ov, _n=name):
+            if len(a) + 1 not in _ov:
+                raise ExtractionError("no transliterated overload of %s with %d args" % (_n, len(a)))
+            return _ov[len(a) + 1](self_, *a)
+        setattr(cls, name, dispatch)
+        self.ctx.add_function(path, (cxxname or cls.__name__ + "::" + name) + "/%d" % (arity - 1), c.start, c.end, c.text,
+                              "M3 (transliteration to symbolic Python; rules logged)", dropped, log)
 
     def dump_sources(self):
         p = os.path.join(self.ctx.out, "transliterated.py")
